@@ -334,8 +334,70 @@ func (p *prover) norm1(v ssa.Value) lin {
 	return p.opaque(v)
 }
 
+// hdrLenBound is the invariant established by C05.hdrlen-bounded: every value ever stored
+// into mappedFile.hdrLen is at most pageSize.
+const hdrLenBound = 16384
+
+// invariantFacts: global invariants about terms occurring in l.
+func (p *prover) invariantFacts(l lin) []lin {
+	var out []lin
+	for t := range l.coef {
+		if strings.HasSuffix(t, ".hdrLen") {
+			out = append(out, linConst(hdrLenBound).add(linTerm(t), -1))
+		}
+	}
+	return out
+}
+
+// wrapSafe: every unsigned sub-word addition/multiplication inside v that has a
+// non-constant operand provably stays below 2^32 (so treating it as mathematical
+// arithmetic is sound). A guard computed in wrapping arithmetic proves nothing.
+func (p *prover) wrapSafe(v ssa.Value, depth int) bool {
+	v = strip(v)
+	if depth > 20 {
+		return false
+	}
+	switch x := v.(type) {
+	case *ssa.Convert:
+		return p.wrapSafe(x.X, depth+1)
+	case *ssa.BinOp:
+		if x.Op != token.ADD && x.Op != token.MUL && x.Op != token.SUB {
+			return true
+		}
+		if !p.wrapSafe(x.X, depth+1) || !p.wrapSafe(x.Y, depth+1) {
+			return false
+		}
+		bt, ok := x.Type().Underlying().(*types.Basic)
+		if !ok || bt.Info()&types.IsUnsigned == 0 {
+			return true // signed / 64-bit int arithmetic: the code's int64 guards
+		}
+		if bt.Kind() == types.Uint64 || bt.Kind() == types.Uint || bt.Kind() == types.Uintptr {
+			return true
+		}
+		_, c1 := intConst(x.X)
+		_, c2 := intConst(x.Y)
+		if c1 && c2 {
+			return true
+		}
+		if x.Op == token.SUB {
+			return false // may wrap below zero; never relied upon
+		}
+		l := p.norm(x)
+		limit := linConst(1<<32 - 1).add(l, -1)
+		ok2, _ := p.proveFrom(limit, p.invariantFacts(l))
+		return ok2
+	}
+	return true
+}
+
 // factLin converts a fact (comparison known true/false) into linear forms ≥ 0.
 func (p *prover) factLin(f Fact) []lin {
+	if bo, ok := f.Cond.(*ssa.BinOp); ok && isInteger(bo.X.Type()) {
+		if !p.wrapSafe(bo.X, 0) || !p.wrapSafe(bo.Y, 0) {
+			p.notes["ignored a guard evaluated in wrapping 32-bit unsigned arithmetic: "+describe(bo)] = true
+			return nil
+		}
+	}
 	b, ok := f.Cond.(*ssa.BinOp)
 	if !ok {
 		// strings.HasPrefix(s, p) true ⇒ len(p) ≤ len(s)
@@ -405,6 +467,10 @@ func (p *prover) isNonneg(l lin) bool {
 
 // prove: goal ≥ 0 follows from facts (each ≥ 0), non-negativity of terms and constants.
 func (p *prover) prove(goal lin, facts []lin) (bool, string) {
+	return p.proveFrom(goal, append(append([]lin{}, facts...), p.invariantFacts(goal)...))
+}
+
+func (p *prover) proveFrom(goal lin, facts []lin) (bool, string) {
 	all := append(append([]lin{}, facts...), p.extra...)
 	if p.isNonneg(goal) {
 		return true, "by non-negativity"
